@@ -25,6 +25,12 @@ class SeededRandom(random.Random):
         self.draws += 1
         return super().random()
 
+    def sample(self, population, k, **kw):
+        res = super().sample(population, k, **kw)
+        self.last_sample = res
+        self.samples_drawn = getattr(self, "samples_drawn", 0) + 1
+        return res
+
 
 class HostileRandom(random.Random):
     """With probability p_edge random() returns an edge value."""
@@ -42,6 +48,12 @@ class HostileRandom(random.Random):
             self.edges += 1
             return self._side.choice(_EDGE)
         return super().random()
+
+    def sample(self, population, k, **kw):
+        res = super().sample(population, k, **kw)
+        self.last_sample = res
+        self.samples_drawn = getattr(self, "samples_drawn", 0) + 1
+        return res
 
     def getrandbits(self, k):
         if self._side.random() < self.p_edge:
